@@ -154,6 +154,17 @@ func main {
 	println(banner, len(banner))
 }
 `},
+	// type-checks, but the code generator panics on it ("TODO: unsafe.MakeString"):
+	// a caller that recovers (as net/http does per request) must not poison later calls
+	{"genpanic_m", "m.wa", `
+import "unsafe"
+
+func main {
+	p: uintptr = 1024
+	s := unsafe.MakeString(p, 4)
+	println(len(s))
+}
+`},
 	{"fmt_i", "i.wa", `
 import "fmt"
 
